@@ -70,7 +70,9 @@ def exCfg : Cfg Nat Nat := { tomb := 0, vlen := fun _ => 1, lt := fun a b => dec
 def exH : Handlers Nat Nat Nat Unit (Nat × Nat) (Nat × Nat) Nat :=
   { hash := id, validate := fun _ => .ret (), check := fun _ => .ret 0,
     -- "add the content to the counter stored under key 1"
-    deliver := fun tx => .get 1 (fun v => .set 1 (v.getD 0 + tx.1) (fun _ => .ret 0)),
+    deliver := fun tx => .get 1 (fun r => match r with
+      | .val v => .set 1 (v.getD 0 + tx.1) (fun _ => .ret 0)
+      | .errGas => .fail),
     fee := fun _ _ => .ret 0, begin := fun _ => [], endb := fun _ => [], gasLimit := 1000000 }
 def exN : Node Nat Nat Nat (Nat × Nat) (Nat × Nat) Nat :=
   { tree := Tree.empty ⟨1, 0, 0⟩, dlv := Ov.fresh 1000000, chk := Ov.fresh 1000000, vol := fun _ => none,
